@@ -6,6 +6,13 @@ from wa.cond import refuted_edges, refuted_edges_concrete, dominating_facts
 from wa.flow import forward_states
 from . import chess
 from .hash import SWAP, TAKE, UNSET, MOVE, place_root
+from wa.cond import canon
+
+
+def _ck(terms):
+    """Affine-form terms keyed without reference/dereference nodes (for comparison only)."""
+    return {canon(k): v for k, v in terms.items()}
+
 
 MM = "uci::make_move"
 POP = "uci::play_out_position"
@@ -349,7 +356,7 @@ def r4_2(ctx):
             poss = enum_value_on_trace(gb, gex, dloc[0], ("field", ("arg", pp[0]), "color"), colours) if pp else set()
             lr, lc = linear(te[3][0]), linear(te[3][1])
             n += 1
-            ok = len(poss) == 1 and lr is not None and lr[0] == {("field", to, "0"): 1} and lr[1] == -chess.PAWN[next(iter(poss))]["dir"] and lc is not None and lc[0] == {("field", to, "1"): 1} and lc[1] == 0
+            ok = len(poss) == 1 and lr is not None and _ck(lr[0]) == {canon(("field", to, "0")): 1} and lr[1] == -chess.PAWN[next(iter(poss))]["dir"] and lc is not None and _ck(lc[0]) == {canon(("field", to, "1")): 1} and lc[1] == 0
             ctx.ob("generate_moves_for_piece:ep-target:%s" % sorted(poss), ok, gb.where(dloc),
                    "generator records (to.row %+d, to.col) for a %s double step; the passed-over square is to.row %+d" % (
                        lr[1] if lr else 0, sorted(poss), -chess.PAWN[next(iter(poss))]["dir"] if len(poss) == 1 else 0))
